@@ -46,6 +46,7 @@ func main() {
 	replay := flag.String("replay", "", "replay file: re-run only that obligation")
 	list := flag.Bool("list", false, "list functions and exit")
 	dump := flag.String("dump", "", "dump SSA of a function with labels and guard facts, then exit")
+	variant := flag.String("variant", "", "liveness bank entry id: analyse the tree with that single edit overlaid and exit 0 iff the expected rule fires")
 	flag.Parse()
 	if t := os.Getenv("VERIF_TIER"); t != "" && *tier == "quick" && !flagSet("tier") {
 		*tier = t
@@ -75,6 +76,9 @@ func main() {
 		}
 		*prop, _ = m["property"].(string)
 		onlyKey, _ = m["key"].(string)
+	}
+	if *variant != "" {
+		os.Exit(runVariant(dir, *variant))
 	}
 	start := time.Now()
 	configs := []struct{ tags, arch string }{{"", ""}}
@@ -140,6 +144,9 @@ func main() {
 			}
 			if ci > 0 {
 				r.Extra["configurations_checked"] = ci + 1
+			}
+			if *tier == "thorough" && ci == len(configs)-1 && onlyKey == "" {
+				runLivenessBank(dir, id, r)
 			}
 			code := r.Finish(start, seed, pd.Explanation, append(append([]string{}, commonAssumptions...), pd.Assumptions...), onlyKey)
 			if code > exit {
